@@ -1,9 +1,10 @@
 /-
-C05 model, part 2: the executable enumeration of everything an unstable sort may return. The slots
-are merge-sorted with the comparator, cut into runs of slots the comparator does not separate, and
-every permutation of every run is produced. Used by the driver to print the allowed set;
-`Proofs/C05Enum.lean` proves that every list produced is a permutation of the input, which is all
-the property theorems require of a sort result (`RunPerm`).
+C05 model, part 2: the executable enumeration of everything an unstable sort may return. The
+minimal slots under the comparator (those not above a minimal one) form the first group, the rest
+is grouped the same way, and every permutation of every group is produced.
+`Proofs/C05Enum.lean`: every list produced is a permutation of the input (no assumption on the
+comparator). `Proofs/C05_EnumComplete.lean`: for a strict weak order the lists produced are exactly
+the sorted permutations of the input, and the code's comparator is a strict weak order.
 -/
 import ArvVerif.Model.C05
 namespace ArvVerif.C05
@@ -16,28 +17,29 @@ def perms : List α → List (List α)
   | [] => [[]]
   | a :: l => (perms l).flatMap (insertions a)
 
-/-- consecutive runs of elements that the comparator does not separate -/
-def tieGroups (lt : α → α → Bool) : List α → List (List α)
-  | [] => []
-  | a :: l =>
-    match tieGroups lt l with
-    | [] => [[a]]
-    | g :: gs =>
-      match g with
-      | b :: _ => if !lt a b && !lt b a then (a :: g) :: gs else [a] :: g :: gs
-      | [] => [a] :: gs
+/-- an element of `a :: l` that no element is below -/
+def minOf (lt : α → α → Bool) (a : α) (l : List α) : α := l.foldl (fun m x => if lt x m then x else m) a
+
+/-- the groups of mutually incomparable elements, lowest first (`n` is fuel ≥ the length) -/
+def sortedGroups (lt : α → α → Bool) : Nat → List α → List (List α)
+  | 0, l => if l.isEmpty then [] else [l]      -- fuel exhausted (not reached for an irreflexive comparator)
+  | _ + 1, [] => []
+  | n + 1, a :: l =>
+    let m := minOf lt a l
+    ((a :: l).filter (fun x => !lt m x)) :: sortedGroups lt n ((a :: l).filter (fun x => lt m x))
 
 def fact : Nat → Nat
   | 0 => 1
   | n + 1 => (n + 1) * fact n
 
 /-- all concatenations of one permutation per group -/
-def groupProducts (gs : List (List α)) : List (List α) :=
-  gs.foldr (fun g acc => (perms g).flatMap (fun p => acc.map (p ++ ·))) [[]]
+def groupProducts : List (List α) → List (List α)
+  | [] => [[]]
+  | g :: gs => (perms g).flatMap (fun p => (groupProducts gs).map (p ++ ·))
 
 /-- every list that `sort.Slice` with comparator `lt` may produce from `l` (none if too many) -/
 def allSorted (lt : α → α → Bool) (l : List α) : Option (List (List α)) :=
-  let gs := tieGroups lt (l.mergeSort (fun a b => !lt b a))
+  let gs := sortedGroups lt l.length l
   if gs.foldl (fun acc g => acc * fact g.length) 1 > 5000 then none
   else some (groupProducts gs)
 
